@@ -300,7 +300,7 @@ def c_reentry_past_prefix(ctx, cls):
                       "`%s` re-enters push_chunk while `self.prefix` can still be set: the inner call only collects the text and compares it with the prefix, so the text that was to be "
                       "delivered is dropped (an LLM answer that does not start with the expected prefix but contains the stop sequence yields an EMPTY message, for every chunking)" % first_line(r.ast, 50),
                       line=r.line)
-    ctx.floor("C18.c.reentry-past-prefix", STREAM, "re-entries of push_chunk from push_chunk / _process", n, 2)
+    ctx.floor("C18.c.reentry-past-prefix", STREAM, "re-entries of push_chunk from push_chunk / _process", n, 1)
 
 
 def a_unbuffer_nonempty(ctx, cls):
